@@ -102,9 +102,14 @@ fn main() {
                 let (shared, docs) = (shared.clone(), docs.clone());
                 handles.push(std::thread::spawn(move || {
                     let mut out = vec![];
-                    for k in 0..docs.len() {
-                        let i = (k * (t + 1) + t) % docs.len();
-                        out.push((i, shared.matches(&docs[i])));
+                    for pass in 0..3usize {
+                        for k in 0..docs.len() {
+                            let i = (k * (t + 1) + t + pass) % docs.len();
+                            // twice in a row: what a racing neighbour left behind in a process
+                            // wide memo is read back by the second call
+                            out.push((i, shared.matches(&docs[i])));
+                            out.push((i, shared.matches(&docs[i])));
+                        }
                     }
                     out
                 }));
@@ -119,7 +124,7 @@ fn main() {
             }
         }
     }
-    println!("taumiri: {} rules x 2 forms x 3 threads x 5 documents, failures={}", RULES.len(), failures);
+    println!("taumiri: {} rules x 2 forms x 3 threads x 5 documents x 3 passes x 2 calls, failures={}", RULES.len(), failures);
     if failures > 0 {
         std::process::exit(1);
     }
